@@ -37,6 +37,10 @@ type Case struct {
 	// GNMI (pipeline mode): the change also goes through the real gnmiTarget in this encoding to an in-process gNMI device
 	GNMI string   `json:"gnmi,omitempty"`
 	Pad  bool     `json:"pad,omitempty"` // non-canonical lexical form: decimal64 with trailing zeros, integers with a leading zero
+	// EqForms (equal mode): which converter produces each of the two values: device (TypedValueToYANGType of the
+	// string a device reports; the default), xml (utils.Convert), client-typed / client-string
+	// (ConvertTypedValueToYANGType of the typed value / the string value a client sends)
+	EqForms []string `json:"eq_forms,omitempty"`
 }
 
 var typesNode = vlib.Lookup("types")
@@ -148,6 +152,10 @@ func gen(t *rapid.T) *Case {
 			c.Vals2 = c.Vals
 		} else {
 			c.Vals2 = genVals(t, n, "w")
+		}
+		if rapid.Bool().Draw(t, "cross-form") {
+			forms := []string{"device", "xml", "client-typed", "client-string"}
+			c.EqForms = []string{rapid.SampledFrom(forms).Draw(t, "form-a"), rapid.SampledFrom(forms).Draw(t, "form-b")}
 		}
 	}
 	if c.Mode == "drift" {
@@ -603,8 +611,57 @@ func execEqual(ctx context.Context, n *vlib.Node, c *Case) *vlib.Failure {
 		}
 		return &sdcpb.TypedValue{Value: &sdcpb.TypedValue_LeaflistVal{LeaflistVal: &sdcpb.ScalarArray{Element: el}}}, nil
 	}
-	a, err1 := conv(c.Vals, c.Pad)
-	b, err2 := conv(c.Vals2, !c.Pad)
+	// the same, through the converter of the given input form
+	convForm := func(form string, vals []string, pad bool) (*sdcpb.TypedValue, error) {
+		switch form {
+		case "xml":
+			if n.Kind != vlib.KLeaf || n.Type == "empty" {
+				return conv(vals, pad)
+			}
+			// (the NETCONF adapter resolves a leafref to the type of its target before it converts the text)
+			lt := leafType(se)
+			for lt.GetLeafrefTargetType() != nil {
+				lt = lt.GetLeafrefTargetType()
+			}
+			return utils.Convert(lex(n, vals[0], pad), lt)
+		case "client-typed":
+			if n.Kind == vlib.KLeafList {
+				// (elements in the given order: the denotation of a leaf-list is sorted)
+				sn := *n
+				sn.Kind = vlib.KLeaf
+				var el []*sdcpb.TypedValue
+				for _, v := range vals {
+					el = append(el, vlib.TVFromDenotation(&sn, v))
+				}
+				return utils.ConvertTypedValueToYANGType(se, &sdcpb.TypedValue{Value: &sdcpb.TypedValue_LeaflistVal{LeaflistVal: &sdcpb.ScalarArray{Element: el}}})
+			}
+			return utils.ConvertTypedValueToYANGType(se, vlib.TVFromDenotation(n, den(n, vals)))
+		case "client-string":
+			lv := make([]string, len(vals))
+			for i, v := range vals {
+				lv[i] = lex(n, v, pad)
+			}
+			in := vlib.StringTVFromDenotation(n, den(n, lv))
+			if n.Kind == vlib.KLeaf && n.Type != "empty" {
+				in = &sdcpb.TypedValue{Value: &sdcpb.TypedValue_StringVal{StringVal: lv[0]}}
+			}
+			if n.Kind == vlib.KLeafList {
+				var el []*sdcpb.TypedValue
+				for _, l := range lv {
+					el = append(el, &sdcpb.TypedValue{Value: &sdcpb.TypedValue_StringVal{StringVal: l}})
+				}
+				in = &sdcpb.TypedValue{Value: &sdcpb.TypedValue_LeaflistVal{LeaflistVal: &sdcpb.ScalarArray{Element: el}}}
+			}
+			return utils.ConvertTypedValueToYANGType(se, in)
+		}
+		return conv(vals, pad)
+	}
+	fa, fb := "device", "device"
+	if len(c.EqForms) == 2 {
+		fa, fb = c.EqForms[0], c.EqForms[1]
+	}
+	a, err1 := convForm(fa, c.Vals, c.Pad)
+	b, err2 := convForm(fb, c.Vals2, !c.Pad)
 	if err1 != nil || err2 != nil || a == nil || b == nil {
 		vlib.GetStats("C12").Discard("converter-refused-in-equal-mode")
 		return nil
@@ -622,7 +679,10 @@ func execEqual(ctx context.Context, n *vlib.Node, c *Case) *vlib.Failure {
 		if same {
 			k = "same-but-unequal"
 		}
-		return vlib.Failf(sig(k, n, c), "leaf %s: values %q and %q (converted by the code from lexical forms: %v and %v): EqualTypedValues=%v, denote the same datum=%v", n.Name, c.Vals, c.Vals2, a, b, got, same)
+		if fa != fb {
+			k += ":cross-form"
+		}
+		return vlib.Failf(sig(k, n, c), "leaf %s: values %q (%s form) and %q (%s form) (converted by the code: %v and %v): EqualTypedValues=%v, denote the same datum=%v", n.Name, c.Vals, fa, c.Vals2, fb, a, b, got, same)
 	}
 	return nil
 }
